@@ -47,5 +47,5 @@ Definition min_cert (M : mat) (m n : nat) (rs cs : list nat) (B : mat) : bool :=
      (seq 0 r)) (seq 0 r).
 
 (* what the harness evaluates per edge: certificate for rank >= r, determinant of the minor *)
-Definition rank_case (M : mat) (m n : nat) (rs cs : list nat) (B : mat) : bool * bool * Q :=
-  (shape_ok M m n, min_cert M m n rs cs B, det (submat M rs cs)).
+Definition rank_case (M : mat) (m n : nat) (rs cs : list nat) (B : mat) : bool * bool * (Z * positive) :=
+  let d := det (submat M rs cs) in (shape_ok M m n, min_cert M m n rs cs B, (Qnum d, Qden d)).
